@@ -61,6 +61,12 @@ fn rtext(r: &Rat) -> String {
     }
 }
 
+/// Formulas asked of the bundled database and then, on the same thread, of (0) a small database
+/// whose elements weigh 12 / 1 / 16 kg per mol, (1) that database after a further load made carbon
+/// 13 kg per mol, (2) a database without any element.  (formula, counts of C, H, O)
+const OTHER_FORMULAS: [(&str, [i64; 3]); 5] = [("CH4", [1, 4, 0]), ("C2H6", [2, 6, 0]), ("CO2", [1, 0, 2]), ("H2O2", [0, 2, 2]), ("C6H12O6", [6, 12, 6])];
+const SMALL_ELEMENTS: &str = "kg !kilogram\nmol !mole\n!symbol carbon C\ncarbon {\n    molar_mass mass 12 kg / amount 1 mol\n}\n!symbol hydrogen H\nhydrogen {\n    molar_mass mass 1 kg / amount 1 mol\n}\n!symbol oxygen O\noxygen {\n    molar_mass mass 16 kg / amount 1 mol\n}\n";
+
 impl C16 {
     pub fn new(_tier: &str) -> C16 {
         let ctx = fresh_ctx();
@@ -122,6 +128,7 @@ impl C16 {
         fams.add("ordered pairs of symbols with counts", vec![pair_syms.len() as u64, pair_syms.len() as u64, 3]);
         fams.add("classic compounds", vec![COMPOUNDS.len() as u64]);
         fams.add("near misses", vec![NEAR_MISS.len() as u64]);
+        fams.add("formulas in other databases on the same thread", vec![OTHER_FORMULAS.len() as u64, 3]);
         C16 { fams, props, amounts, symbols, pair_syms, skipped_unit_names: skipped, ctx: Lazy::new() }
     }
 }
@@ -142,7 +149,7 @@ impl Space for C16 {
         Meta {
             id: "C16",
             level: "exploration",
-            rule: "every substance x every property of the registry: output of an amount a (5 rational amounts, written in base units of the input dimensionality) = output*(a/input) exactly; the input of that result = a; a wrong-dimension amount is a Conformance error; `<prop> of (k S)` and `(S / k)` scale by k and 1/k; const properties listed by `k S` scale by k. Formulas: every element symbol x counts {none, 2, 10, 2^32-1, 2^32, 1e20-1}, all ordered pairs of 12 symbols x 3 count patterns, six classic compounds: molar mass = exact count-weighted sum; 22 near-miss strings are not formulas. Non-trivial = judged; distinct by query text".into(),
+            rule: "every substance x every property of the registry: output of an amount a (5 rational amounts, written in base units of the input dimensionality) = output*(a/input) exactly; the input of that result = a; a wrong-dimension amount is a Conformance error; `<prop> of (k S)` and `(S / k)` scale by k and 1/k; const properties listed by `k S` scale by k. Formulas: every element symbol x counts {none, 2, 10, 2^32-1, 2^32, 1e20-1}, all ordered pairs of 12 symbols x 3 count patterns, six classic compounds: molar mass = exact count-weighted sum; 22 near-miss strings are not formulas. Plus 5 formulas asked of the bundled database and then, on the same thread, of a small database with other element masses, of that database after a load redefined an element, and of a database without elements. Non-trivial = judged; distinct by query text".into(),
             assumptions: vec![
                 "properties whose input/output names are not unique within the substance are skipped for the name-addressed queries (the statement's own restriction) and counted".into(),
                 "a substance is addressed only by names that do not also resolve as a unit (units win: `hg` is hectogram, not mercury)".into(),
@@ -157,6 +164,10 @@ impl Space for C16 {
         self.fams.total()
     }
     fn describe(&self, idx: u64) -> String {
+        let (f, d) = self.fams.locate(idx);
+        if f == self.fams.fams.len() - 1 {
+            return format!("molar_mass of {} in {}", OTHER_FORMULAS[d[0] as usize].0, ["a small database asked after the bundled one", "that database after a load redefined carbon", "a database without elements"][d[1] as usize]);
+        }
         self.plan(idx).0
     }
     fn sample_indices(&self) -> Vec<u64> {
@@ -169,6 +180,49 @@ impl Space for C16 {
         self.ctx.clear();
     }
     fn run(&mut self, idx: u64) -> CaseOut {
+        {
+            let (f, d) = self.fams.locate(idx);
+            if f == self.fams.fams.len() - 1 {
+                let (formula, counts) = OTHER_FORMULAS[d[0] as usize];
+                let q = format!("molar_mass of {}", formula);
+                let mut out = CaseOut::ok("other database").key(hash64(&("other", formula, d[1])));
+                // the bundled database first, on this thread
+                let big = self.ctx.get(fresh_ctx);
+                let _ = eval_q(big, &q);
+                let mut small = Context::new();
+                small.use_humanize = false;
+                let (text, c_mass) = match d[1] {
+                    0 => (SMALL_ELEMENTS.to_string(), 12),
+                    1 => (SMALL_ELEMENTS.to_string(), 13),
+                    _ => ("kg !kilogram\nmol !mole\n".to_string(), 0),
+                };
+                let _ = small.load_definitions(&text);
+                if d[1] == 1 {
+                    let _ = eval_q(&small, &q);
+                    let _ = small.load_definitions("!symbol carbon C\ncarbon {\n    molar_mass mass 13 kg / amount 1 mol\n}\n");
+                }
+                let res = eval_q(&small, &q);
+                if d[1] == 2 {
+                    if let Ok(r) = &res {
+                        out = out.viol("text read as a formula in a database that has no elements", format!("`{}` -> {}", q, r));
+                    }
+                    return out;
+                }
+                let want = rat(c_mass * counts[0] + counts[1] + 16 * counts[2], 1);
+                match number_of(&res) {
+                    Ok((g, gd)) => {
+                        let mut wd = Dims::new();
+                        wd.insert("kg".into(), 1);
+                        wd.insert("mol".into(), -1);
+                        if g != want || gd != wd {
+                            out = out.viol("molar mass is not the count-weighted sum of this database's elements", format!("`{}` -> {} [{}], expected {} kg/mol", q, g, dims_str(&gd), want));
+                        }
+                    }
+                    Err(e) => out = out.viol("formula of known symbols not evaluated", format!("`{}`: {}", q, e)),
+                }
+                return out;
+            }
+        }
         let (q, want) = self.plan(idx);
         let ctx = self.ctx.get(fresh_ctx);
         let mut out = CaseOut::ok("").key(hash64(&q));
